@@ -45,6 +45,12 @@ from ..util import automat_state
 
 ID = "C15"
 PROP_MODULES = ["WV.Props.C15"]
+# translation validation of the Dilation method bodies (tools/extract.py::extract_pyir_dil -> WV/Gen/PyIRDil.lean,
+# interpreter WV/Model/PyIR.lean): part of the check as soon as the module is installed (agents/deepPyIRdil_integration.md)
+import os as _os
+if _os.path.exists(_os.path.join(_os.path.dirname(_os.path.dirname(_os.path.dirname(_os.path.abspath(__file__)))),
+                                 "lean", "WV", "Props", "PyIR_C15.lean")):
+    PROP_MODULES.append("WV.Props.PyIR_C15")
 TRUSTED = [
     "producers are ids in the model; that Outbound.resumeProducing's loop ends on `p is None` and not on the truth value "
     "of a producer object is pinned from the source (resume_loop_ends_only_on_none) and the witness with a falsy "
